@@ -604,3 +604,69 @@ func statsSorted(m map[string]int) []string {
 	}
 	return out
 }
+
+// ---------- the registry, sequentially: the atomic-map specification against the real code ----------
+// One case is a sequence of Registry / Registry(non-service) / Get / Remove / Clear calls on an emptied registry
+// (keys and service identities are small numbers); the model folds Locks.seq over it.
+func emitRegCases(w *caseWriter, r *rng, thorough bool) {
+	defer restoreDefaults()
+	n := 600
+	if thorough {
+		n = 6000
+	}
+	svcs := map[[2]int]*dummySvc{}
+	svc := func(k, v int) *dummySvc {
+		if s, ok := svcs[[2]int{k, v}]; ok {
+			return s
+		}
+		s := &dummySvc{name: fmt.Sprintf("verif-key-%d", k), id: v}
+		svcs[[2]int{k, v}] = s
+		return s
+	}
+	for i := 0; i < n; i++ {
+		codec.Clear()
+		keys := 1 + r.intn(4)
+		steps := 1 + r.intn(24)
+		var toks, outs []string
+		class := "reg"
+		for j := 0; j < steps; j++ {
+			k := r.intn(keys)
+			switch c := r.intn(10); {
+			case c < 4:
+				v := 1 + r.intn(5)
+				toks = append(toks, fmt.Sprintf("r%d:%d", k, v))
+				if codec.Registry(svc(k, v)) {
+					outs = append(outs, "t")
+				} else {
+					outs = append(outs, "f")
+				}
+			case c < 7:
+				toks = append(toks, fmt.Sprintf("g%d", k))
+				got, ok := codec.Get(fmt.Sprintf("verif-key-%d", k))
+				if d, isd := got.(*dummySvc); ok && isd && d.name == fmt.Sprintf("verif-key-%d", k) {
+					outs = append(outs, fmt.Sprintf("v%d", d.id))
+				} else if !ok && got == nil {
+					outs = append(outs, "n")
+				} else {
+					outs = append(outs, fmt.Sprintf("?%v/%v", got, ok))
+				}
+			case c < 8:
+				toks = append(toks, fmt.Sprintf("x%d", k))
+				codec.Remove(fmt.Sprintf("verif-key-%d", k))
+				outs = append(outs, "u")
+			case c < 9:
+				toks = append(toks, "c")
+				codec.Clear()
+				outs = append(outs, "u")
+			default:
+				toks = append(toks, "b")
+				if codec.Registry(struct{ X int }{j}) {
+					outs = append(outs, "t")
+				} else {
+					outs = append(outs, "f")
+				}
+			}
+		}
+		w.add(class, "RG\t"+strings.Join(toks, " "), "ok\t"+strings.Join(outs, " "))
+	}
+}
